@@ -220,6 +220,9 @@ fn burst_inbound_dups(seed: u64, v: Variant, k: usize, dups: bool) -> (World, Ob
 /// K requests already queued when the context task gets to run
 fn burst_requests(seed: u64, v: Variant, k: usize) -> (World, Obs) {
     let mut w = world_for(seed, v);
+    // some of the requests are very large (70 000 bytes and more), unless the writer plan makes that too slow
+    w.huge_pubs = k <= 20;
+    w.sim.log_enabled = true;
     w.sim.hold_ctx = true;
     let kinds = [Kind::Pub0, Kind::Pub1, Kind::Ping, Kind::Pub2, Kind::Unsub, Kind::Sub];
     for j in 0..k {
